@@ -408,7 +408,8 @@ def rule_F2p(ctx, rid='F2'):
             'serves as likelihood AND sampler pool, so the vectorised run loses (or resizes) the '
             'pool that builds and samples the bounds while the scalar run keeps it - same seed, '
             'different result' % unparse(st)[:50])
-    ctx.require(n >= 1, 'F2p: pool set-up under the vectorized test not found')
+    if n == 0:
+        ctx.note('F2p: no pool entry is assigned under a test of vectorized')
     return n
 
 
